@@ -1,7 +1,9 @@
 """PARSER — oq3_parser: token_set.rs, input.rs, event.rs, parser.rs (PCORE) and the whole grammar
 (grammar.rs, grammar/{items,expressions,params}.rs, grammar/expressions/atom.rs)   (C01, C02, C05, C12)"""
 import re
-from vlib.unit import Unit
+from vlib.unit import Unit, REPO
+from vlib.rustsrc import RustFile
+import os
 
 SK = 'crates/oq3_parser/src/syntax_kind/syntax_kind_enum.rs'
 TS = 'crates/oq3_parser/src/token_set.rs'
@@ -484,6 +486,18 @@ ensures unmoved(*old(p), *final(p)), r.kind == self.kind, r.pos == self.pos,
         'cast_expr': ' is_classical_k(%s),' % CUR,
         'modified_gate_call_expr': ' %s,' % MODK,
     }
+    # C05 (roles of an `if`): the IF_STMT node begins with its `if` keyword -- the marker handed in was started immediately before
+    # (so an `else if` opens a node of its own: it cannot continue the enclosing one)
+    NODE_START = '\n    old(p).events@.len() == m.pos + 1,        //@C05,C06:node-begins-with-its-keyword\n   '
+    REQ_NODE_START = {'if_stmt': NODE_START, 'opt_item': NODE_START}
+    # ... and so does every statement node that opt_item dispatches to with the marker it was given (callee names read from its arms)
+    try:
+        _oi = RustFile(os.path.join(REPO, GI))
+        _it = _oi.find_fn('opt_item', None, 0)
+        for _nm in set(re.findall(r'(?:=>|\{)\s*(\w+)\(p, m\)', _oi.src[_it['header_start']:_it['end']])):
+            REQ_NODE_START.setdefault(_nm, NODE_START)
+    except KeyError:
+        pass
     LOOPS = {
         'source_file_contents': {1: 'invariant crate::parser::mono(*old(p), *p),\nensures crate::parser::mono(*old(p), *p), crate::parser::cur(p.st()) == SyntaxKind::EOF || (stop_on_r_curly && crate::parser::cur(p.st()) == SyntaxKind::R_CURLY),\ndecreases crate::parser::rem(p.st()),'}, 'switch_case_stmt': {1: 'invariant crate::parser::mono(*old(p), *p), p.pos > old(p).pos,\ndecreases crate::parser::rem(p.st()),'}, 'expr_block_statements': {1: DEC},
         'expr_bp': {1: 'invariant crate::parser::done_at(p.events@, lhs.pos as int), lhs.pos >= old(p).events@.len(), crate::parser::mono(*old(p), *p), bp >= 1, p.pos > old(p).pos,\ndecreases crate::parser::rem(p.st()),'},
@@ -505,6 +519,7 @@ ensures unmoved(*old(p), *final(p)), r.kind == self.kind, r.pos == self.pos,
                 ens = ''
                 if req:
                     ens = ADV                       # begins by consuming the token it requires
+                req += REQ_NODE_START.get(name, '')
                 if name in ENS:
                     ens += ENS[name][0]
                     if ENS[name][1]:
